@@ -21,4 +21,10 @@ CHECKS = {
         "note": _E1_NOTE,
     },
 }
+CHECKS["C05"] = {
+    "engine": "E1-v2x", "level": "model_checking",
+    "technique": "explicit-state model checking of the implementation: exhaustive enumeration of competitor tables x trigger events x all tie-break outcomes, oracle = admissible-winner set computed from the documented specificity rule",
+    "text": "All programs of 2 (complete, direct and via awaited sub-flow) and 3 (quick: reduced; thorough: complete; plus reduced n=4) competing flows over the table mention-mask x action x loop x priority are run for every trigger event, two events deep, with every random.choice outcome; per loop exactly one Start event, winner in the arg-max of the documented score, identical actions co-win and start once, losers failed, non-fitting flows untouched.",
+    "note": _E1_NOTE,
+}
 NOT_APPLICABLE = {}
